@@ -451,8 +451,9 @@ func c12Spaces(c *fw.Ctx) {
 		{c12Crosstalk("e2/crosstalk/pc/3-clients", "pc", 3, 0), 0, 0},
 		{c12Pipeline("e2/pipelining/tcp/3-queries-one-segment", 3, 0), 2, 5},   // b=5: 5.3 M, 56 s
 		{c12Pipeline("e2/pipelining/tcp/2-queries-5-octet-reads", 2, 5), 1, 3},
-		{c12PipelineA("e2/pipelining/tcp/2-queries-async-replies", 2, 0, true), 2, 3},
-		{c12PipelineA("e2/pipelining/tcp/3-queries-async-replies", 3, 0, true), 1, 2}, // b=3: 1.1 M, 13 s; b=4: 17.6 M, 196 s
+		// (c12PipelineA with async = true — handlers that reply from a goroutine of their own after returning — is not
+		// registered: on the unchanged tree that use already races with the connection's teardown (response.closed);
+		// the library's way to reply later is Hijack, which ends the library's reading of the connection)
 		{c12Crosstalk("e2/segmentation/tcp/1-octet-reads", "tcp", 1, 1), 1, 2}, // b=2: 4.3 M, 53 s
 		{c12Crosstalk("e2/segmentation/tcp/3-octet-reads", "tcp", 1, 3), 1, 2}, // b=2: 4.0 M, 44 s
 	}
